@@ -85,7 +85,8 @@ template <class Env> void push_hist(Env& env, const std::vector<valtype>& hs, co
     if constexpr (has_nOpCount_history<Env>::value) env.nOpCount_history.push_back((int)hn);
     if constexpr (has_vfExec_history<Env>::value) env.vfExec_history.push_back(ConditionStack());
     if constexpr (has_pbegincodehash_history<Env>::value) env.pbegincodehash_history.push_back(env.script.begin());
-    if constexpr (has_execdata_history<Env>::value) env.execdata_history.push_back(env.execdata);
+    // the older snapshot differs from the pre-state in every execdata field, so that a restore from the wrong index is visible
+    if constexpr (has_execdata_history<Env>::value) { auto h = env.execdata; h.m_codeseparator_pos ^= 0x55; h.m_validation_weight_left += 13; env.execdata_history.push_back(h); }
 }
 void dump(Wr& w, InterpreterEnv& env, ScriptError err) {
     w.u32((uint32_t)err);
